@@ -100,26 +100,33 @@ fn classify_return(sig: &Signature, lifetime_types: &BTreeSet<String>) -> (&'sta
 
 fn deleg_shape(body: &str) -> &'static str {
   let b = body.replace(' ', "");
-  // recognised "deref both sides to [T] and delegate" shapes
-  if b.contains("self[..]==other[..]") {
-    "sliceEq"
-  } else if b.contains("letx:&[T]=&**self;lety:&[T]=&**other;x.cmp(y)") {
-    "sliceCmp"
-  } else if b.contains("letx:&[T]=&**self;lety:&[T]=&**other;PartialOrd::partial_cmp(x,y)") {
-    "slicePartialCmp"
-  } else if b.contains("letthis:&[T]=&**self;core::hash::Hash::hash(this,state)") {
-    "sliceHash"
-  } else if b.contains("letthis:&[T]=&*self;this.fmt(f)") {
-    "sliceFmt"
-  } else if b == "{&(self[..])}" || b == "{self}" || b == "{&mut(self[..])}" || b == "{&mut*self}" {
-    "sliceRef"
-  } else if b.contains("letv:&[T]=&**self;core::ops::Index::index(v,index)") {
-    "sliceIndex"
-  } else if b.contains("letv:&mut[T]=&mut**self;core::ops::IndexMut::index_mut(v,index)") {
-    "sliceIndexMut"
-  } else {
-    "other"
+  // recognised "deref both sides to [T] and delegate" shapes: the WHOLE body must be the delegation
+  match b.as_str() {
+    "{self[..]==other[..]}" => "sliceEq",
+    "{letx:&[T]=&**self;lety:&[T]=&**other;x.cmp(y)}" => "sliceCmp",
+    "{letx:&[T]=&**self;lety:&[T]=&**other;PartialOrd::partial_cmp(x,y)}" => "slicePartialCmp",
+    "{letthis:&[T]=&**self;core::hash::Hash::hash(this,state);}" => "sliceHash",
+    "{letthis:&[T]=&*self;this.fmt(f)}" => "sliceFmt",
+    "{&(self[..])}" | "{self}" | "{&mut(self[..])}" | "{&mut*self}" => "sliceRef",
+    "{letv:&[T]=&**self;core::ops::Index::index(v,index)}" => "sliceIndex",
+    "{letv:&mut[T]=&mut**self;core::ops::IndexMut::index_mut(v,index)}" => "sliceIndexMut",
+    _ => "other",
   }
+}
+
+/// the body of `fn eq` inside the `minivec_eq_impl!` macro definition
+fn macro_eq_fn_body(mac: &str) -> String {
+  let m = mac.replace(' ', "");
+  if let Some(i) = m.find("fneq(&self,other:&$rhs)->bool") {
+    let rest = &m[i + "fneq(&self,other:&$rhs)->bool".len()..];
+    // balanced braces
+    let mut depth = 0i32;
+    for (k, c) in rest.char_indices() {
+      if c == '{' { depth += 1; }
+      if c == '}' { depth -= 1; if depth == 0 { return rest[..=k].to_string(); } }
+    }
+  }
+  String::new()
 }
 
 pub fn facts(files: &[(String, File)]) -> (String, String) {
@@ -255,7 +262,7 @@ pub fn facts(files: &[(String, File)]) -> (String, String) {
       }
     }
   }
-  deleg.insert("partialEq".into(), deleg_shape(&macro_eq_body));
+  deleg.insert("partialEq".into(), deleg_shape(&macro_eq_fn_body(&macro_eq_body)));
 
   // ---- Lean
   let mut l = String::from("/- GENERATED by mvtrans from /repo/src on every run. Do not edit. -/\nnamespace MV.Gen.Facts\n\n");
